@@ -248,21 +248,22 @@ def bytesOfNat (n : Nat) : Bytes := bytesOfNatAux n n []
 /-- `big.Int.BitLen`. -/
 def bitLen (n : Nat) : Nat := if n = 0 then 0 else Nat.log2 n + 1
 
-/-- `parseRSAPublicKey` on the decoded key octets (RFC 3110). -/
+/-- the part of `parseRSAPublicKey` after the exponent length is known. -/
+def parseRSAAt (kb : Bytes) (off explen : Nat) : Option (Nat × Nat) :=
+  if explen = 0 || kb.length ≤ off + explen then none
+  else if kb.getD off 0 == 0 || kb.getD (off + explen) 0 == 0 then none
+  else if natOfBytes (kb.drop (off + explen)) = 0 || natOfBytes ((kb.drop off).take explen) = 0 then none
+  else some (natOfBytes (kb.drop (off + explen)), natOfBytes ((kb.drop off).take explen))
+
+/-- `parseRSAPublicKey` on the decoded key octets (RFC 3110): one length
+octet, or a zero octet followed by two. -/
 def parseRSA (kb : Bytes) : Option (Nat × Nat) :=
   match kb with
   | [] => none
   | b0 :: _ =>
-    if b0 == 0 && kb.length < 3 then none else
-    let explen := if b0 == 0 then (kb.getD 1 0).toNat * 256 + (kb.getD 2 0).toNat else b0.toNat
-    let off := if b0 == 0 then 3 else 1
-    let modoff := off + explen
-    if explen = 0 || kb.length ≤ modoff then none
-    else if kb.getD off 0 == 0 || kb.getD modoff 0 == 0 then none
-    else
-      let e := natOfBytes ((kb.drop off).take explen)
-      let n := natOfBytes (kb.drop modoff)
-      if n = 0 || e = 0 then none else some (n, e)
+    if b0 == 0 then
+      (if kb.length < 3 then none else parseRSAAt kb 3 ((kb.getD 1 0).toNat * 256 + (kb.getD 2 0).toNat))
+    else parseRSAAt kb 1 b0.toNat
 
 structure RSALimits where
   minBits : Nat
